@@ -26,6 +26,8 @@ RULE = (
     'of the loaded history; identical text on the second dump; the replay\'s '
     'player-visible operations (kind, player, amount, cards; dealing '
     'compared per player) and final stacks/payoffs equal the original hand; '
+    'one cash-game hand in four is anonymised (down cards dealt as ??, '
+    'some never revealed and "shown" face down at the showdown); '
     'the commentary strings of the original log (incl. quotes, # and runs '
     'of spaces) are, in order, the commentary of the replayed operations; '
     'hold\'em-family histories whose hole-card lines are replaced by ???? '
@@ -49,7 +51,8 @@ REQUIRED = ('round_trips', 'replays_compared', 'partial_histories',
             'unknown_hole_replays', 'corruptions_checked',
             'corruptions_raised', 'trimmed_short_stack_histories',
             'commentary_histories', 'commentary_sequences_compared',
-            'commentary_with_whitespace_runs')
+            'commentary_with_whitespace_runs',
+            'histories_with_facedown_unknown_shows')
 
 PHH_GAMES = tuple(g for g in gen.ALL_GAMES if g != 'NoLimitRoyalHoldem')
 HOLDEM_FAMILY = ('FixedLimitTexasHoldem', 'NoLimitTexasHoldem',
@@ -220,6 +223,9 @@ def check_case(res, rng, cfg, pol):
         res.counters['decimal_histories'] += 1
     if any(' # ' in a for a in hh.actions):
         res.counters['commentary_histories'] += 1
+    if any(a.split()[1:2] == ['sm'] and '??' in a.split('#')[0]
+           for a in hh.actions):
+        res.counters['histories_with_facedown_unknown_shows'] += 1
     if text2 != text:
         a, b = text.splitlines(), text2.splitlines()
         d = [(x, y) for x, y in zip(a, b) if x != y][:2]
@@ -390,6 +396,16 @@ def run_shard(seed, shard, of, tier, deadline):
         pol['commentary'] = rng.random() < 0.4
         if pol['deal'] == 'unknown':
             pol['deal'] = 'default'
+        if cfg['mode'] == 'CASH_GAME' and rng.random() < 0.25 and \
+                'HOLE_DEALING' not in cfg['autos']:
+            # anonymised hands: down cards dealt as ??, some of them never
+            # revealed ("shown" face down at the showdown)
+            pol['deal'] = 'unknown'
+            cfg['autos'] = [a for a in cfg['autos']
+                            if a != 'HOLE_CARDS_SHOWING_OR_MUCKING']
+            pol['keep_unknown'] = rng.choice([0.5, 1.0])
+            pol['policy'] = rng.choice(['passive', 'passive', 'uniform'])
+            res.counters['unknown_card_hands'] += 1
         check_case(res, rng, cfg, pol)
     return res
 
